@@ -114,6 +114,14 @@ mut("c09-close-walks-to-move", "C09", "every close walks back to the last move o
                 return''', '''            if isinstance(segment, Move):
                 self._segments[index].end = Point(segment.end)
                 return''')])
+mut("c09-arc-subnormal-squares-divide", "C09", "the arc centre computation divides by squares that underflow (ZeroDivisionError out of the parser; the pinned tree's defect)",
+'''        except (ZeroDivisionError, OverflowError):
+            c = float("nan")''',
+'''        except OverflowError:
+            c = float("nan")''')
+mut("c09-arc-nan-centre-kept", "C09", "an arc whose centre computation is not finite is kept with NaN centre, radii and sweep (the pinned tree's defect)",
+'''        if c != c or c == float("inf"):''',
+'''        if False:''')
 
 # ---------------- C16
 mut("c16-arc-sweep-not-negated", "C16", "Arc.reverse swaps the end points but keeps the sweep",
@@ -477,6 +485,9 @@ mut("c10-styles-kept-between-parses", "C10", "the style-sheet table became a def
         stack = []''', '''        root = context
         stack = []''')])
 
+mut("c18-text-font-size-shared", "C18", "copies of a Text share a font size that is still a Length (the pinned tree's defect)",
+'''        self.font_size = _own(s.font_size)''',
+'''        self.font_size = s.font_size''')
 # ---------------- C20
 mut("c20-viewport-inverse-wrong-side", "C20", "the inverse viewport transform is multiplied on the wrong side",
 '''        if viewport_transform:
